@@ -246,3 +246,535 @@ def format_key(pf):
 
 def rec_bytes(rec):
     return bytes(np.ascontiguousarray(rec.array).tobytes())
+
+
+# =================================================================================
+# Round-4 additions (C03 / C06 / C19 group). Everything below is NEW: nothing above was changed.
+# =================================================================================
+ALL_PAIRS = [(v, f) for v in VERSIONS for f in COMPAT[v]]
+LATIN1 = [0xE9, 0xE8, 0xFC, 0xDF, 0xA9, 0xB0, 0xFF, 0x80]     # bytes that are neither ASCII nor (alone) valid UTF-8
+
+
+def _u(raw, pos, w):
+    return int.from_bytes(raw[pos:pos + w], "little")
+
+
+def parse_raw(raw):
+    """the fixed header of a LAS file read straight from its bytes (no laspy code involved); ValueError when there is none"""
+    if len(raw) < 227 or raw[:4] != b"LASF":
+        raise ValueError("not a LAS header")
+    minor = raw[25]
+    need = {1: 227, 2: 227, 3: 235}.get(minor, 375)
+    if len(raw) < need:
+        raise ValueError("header cut short")
+    d = {"major": raw[24], "minor": minor, "system_identifier": bytes(raw[26:58]), "generating_software": bytes(raw[58:90]),
+         "header_size": _u(raw, 94, 2), "offset": _u(raw, 96, 4), "nvlrs": _u(raw, 100, 4), "fmt": raw[104] & 0x3F,
+         "compressed": bool(raw[104] & 0xC0), "psize": _u(raw, 105, 2)}
+    if minor >= 4:
+        d["count"] = _u(raw, 247, 8)
+        d["by_return"] = [_u(raw, 255 + 8 * i, 8) for i in range(15)]
+        d["evlr_start"] = _u(raw, 235, 8)
+        d["nevlrs"] = _u(raw, 243, 4)
+    else:
+        d["count"] = _u(raw, 107, 4)
+        d["by_return"] = [_u(raw, 111 + 4 * i, 4) for i in range(5)]
+        d["evlr_start"] = 0
+        d["nevlrs"] = 0
+    d["scales"] = [struct.unpack("<d", raw[131 + 8 * i:139 + 8 * i])[0] for i in range(3)]
+    d["offsets"] = [struct.unpack("<d", raw[155 + 8 * i:163 + 8 * i])[0] for i in range(3)]
+    d["maxs_bits"] = [_u(raw, 179 + 16 * i, 8) for i in range(3)]
+    d["mins_bits"] = [_u(raw, 187 + 16 * i, 8) for i in range(3)]
+    return d
+
+
+def raw_vlr_block(raw):
+    """bytes of the VLR area (header_size .. offset_to_point_data) of a file"""
+    d = parse_raw(raw)
+    return bytes(raw[d["header_size"]:d["offset"]])
+
+
+def raw_walk_vlrs(raw, pos, n, extended):
+    """(list of (user id, record id, description, payload), end position) of n records starting at pos; ValueError when cut short"""
+    out = []
+    hl, lw = (60, 8) if extended else (54, 2)
+    for _ in range(n):
+        if pos + hl > len(raw):
+            raise ValueError("record header cut short")
+        ln = _u(raw, pos + 20, lw)
+        if pos + hl + ln > len(raw):
+            raise ValueError("record payload cut short")
+        out.append((bytes(raw[pos + 2:pos + 18]), _u(raw, pos + 18, 2), bytes(raw[pos + 20 + lw:pos + hl]), bytes(raw[pos + hl:pos + hl + ln])))
+        pos += hl + ln
+    return out, pos
+
+
+def raw_records(raw):
+    """bytes of the records the header announces (clamped to the file)"""
+    d = parse_raw(raw)
+    return bytes(raw[d["offset"]:d["offset"] + d["count"] * d["psize"]])
+
+
+def raw_stats_problems(raw, trailing_ok=False):
+    """C03's equalities recomputed exactly from the bytes of a file, with no laspy code in the loop: count = stored records,
+    extrema = scaled exact integer extrema (bit patterns), per-return histogram (5 / 15 bins; 3-bit / 4-bit return number),
+    offsets locate the point block and the EVLRs, file length = offset + count x record length + EVLR bytes.
+    trailing_ok: bytes beyond the announced end are tolerated (sessions in which a failed low-level write left bytes behind)."""
+    try:
+        d = parse_raw(raw)
+    except ValueError as ex:
+        return [f"header: {ex}"]
+    problems = []
+    n, ps, off = d["count"], d["psize"], d["offset"]
+    if ps < 20 or off < d["header_size"]:
+        return [f"header: point size {ps} / offset {off} / header size {d['header_size']} make no sense"]
+    end_pts = off + n * ps
+    if end_pts > len(raw):
+        return [f"point_count {n} but only {max(0, (len(raw) - off)) // ps} records are stored"]
+    ev_bytes = 0
+    if d["nevlrs"]:
+        if d["evlr_start"] != end_pts:
+            problems.append(f"start_of_first_evlr {d['evlr_start']} != offset {off} + {n} x {ps} = {end_pts}")
+        try:
+            _, e = raw_walk_vlrs(raw, d["evlr_start"], d["nevlrs"], True)
+            ev_bytes = e - d["evlr_start"]
+        except ValueError as ex:
+            problems.append(f"number_of_evlrs {d['nevlrs']} but the records at {d['evlr_start']} are not there ({ex})")
+    if (len(raw) < end_pts + ev_bytes) if trailing_ok else (len(raw) != end_pts + ev_bytes):
+        problems.append(f"file length {len(raw)} != offset {off} + {n} x {ps} + EVLR bytes {ev_bytes} (point_count vs stored records)")
+    try:
+        vl, e = raw_walk_vlrs(raw[:off], d["header_size"], d["nvlrs"], False)
+    except ValueError as ex:
+        problems.append(f"offset_to_point_data {off}: the {d['nvlrs']} VLRs do not fit before it ({ex})")
+    a = np.frombuffer(raw[off:end_pts], dtype=np.uint8).reshape(n, ps) if n else np.zeros((0, ps), dtype=np.uint8)
+    for i, k in enumerate("XYZ"):
+        if n:
+            col = a[:, 4 * i:4 * i + 4].copy().view("<i4").ravel()
+            mx = float(int(col.max())) * d["scales"][i] + d["offsets"][i]
+            mn = float(int(col.min())) * d["scales"][i] + d["offsets"][i]
+        else:
+            mx = mn = 0.0
+        if d["maxs_bits"][i] != f64bits(mx) or d["mins_bits"][i] != f64bits(mn):
+            problems.append(f"{k} extrema header=({bits_f64(d['mins_bits'][i])!r},{bits_f64(d['maxs_bits'][i])!r}) exact=({mn!r},{mx!r})")
+    mask = 0x0F if d["fmt"] >= 6 else 0x07
+    rn = (a[:, 14] & mask) if n else np.zeros(0, dtype=np.uint8)
+    bins = len(d["by_return"])
+    hist = [int((rn == k).sum()) for k in range(1, bins + 1)]
+    if hist != d["by_return"]:
+        problems.append(f"points by return header={d['by_return']} exact={hist} (version 1.{d['minor']}, format {d['fmt']})")
+    return problems
+
+
+class LogStream2(io.BytesIO):
+    """BytesIO recording every low-level write as (position, bytes); optional ONE-OFF fault: the `fail_at`-th write counted from
+    arm() stores only its first `keep` bytes (keep may be a callable of the length) and raises OSError; later writes succeed."""
+
+    def __init__(self, initial=b""):
+        super().__init__(initial)
+        self.trace = []
+        self.fail_at = None
+        self.keep = 0
+        self.seen = 0
+        self.fault = None          # (index in trace, position, bytes asked, bytes stored) once the fault happened
+        self.min_len = 0           # only writes of at least this many bytes count as candidates
+
+    def arm(self, fail_at, keep, min_len=0):
+        self.fail_at, self.keep, self.seen, self.min_len = fail_at, keep, 0, min_len
+
+    def write(self, b):
+        b = bytes(b)
+        if self.fail_at is not None and self.fault is None and len(b) >= self.min_len:
+            i = self.seen
+            self.seen += 1
+            if i == self.fail_at:
+                j = self.keep(len(b)) if callable(self.keep) else min(self.keep, len(b))
+                pos = self.tell()
+                self.trace.append((pos, b[:j]))
+                super().write(b[:j])
+                self.fault = (len(self.trace) - 1, pos, len(b), j)
+                raise OSError(28, "No space left on device (harness: one-off torn write)")
+        self.trace.append((self.tell(), b))
+        return super().write(b)
+
+
+def nonascii_bytes(rng, n):
+    """n bytes, no NUL, at least one of them not ASCII (as software writing Latin-1 text would leave them)"""
+    n = max(1, n)
+    bs = bytearray(rng.choice(PRINTABLE) for _ in range(n))
+    for _ in range(rng.choice([1, 1, 2, n])):
+        bs[rng.randrange(n)] = rng.choice(LATIN1)
+    return bytes(bs)
+
+
+def make_nonascii(rng, h, where=None):
+    """puts non-ASCII bytes into the header strings and / or the VLR descriptions of h (which laspy hands back as bytes when it
+    reads such a file); returns the list of places touched"""
+    import laspy
+    where = where or rng.choice([("sysid",), ("software",), ("vlr",), ("sysid", "software", "vlr"), ("sysid", "vlr")])
+    if "sysid" in where:
+        h.system_identifier = nonascii_bytes(rng, rng.choice([1, 5, 31, 32]))
+    if "software" in where:
+        h.generating_software = nonascii_bytes(rng, rng.choice([1, 9, 32]))
+    if "vlr" in where:
+        if not len(h.vlrs) or rng.random() < 0.5:
+            h.vlrs.append(laspy.VLR("U" + rand_ascii(rng, 3), rng.randrange(65536), "x", bytes(rng.randrange(256) for _ in range(rng.choice([0, 3, 20])))))
+        plain = [i for i, v in enumerate(h.vlrs) if type(v).__name__ == "VLR"]
+        forced = rng.choice(plain) if plain else None
+        for i in plain:
+            if i == forced or rng.random() < 0.6:
+                v = h.vlrs[i]
+                h.vlrs[i] = laspy.VLR(v.user_id, v.record_id, nonascii_bytes(rng, rng.choice([1, 7, 32])), v.record_data)
+    return list(where)
+
+
+def return_range(fmt):
+    return 16 if fmt >= 6 else 8
+
+
+def sweep_points(rng, header, n, start=0):
+    """n records whose return numbers run through the WHOLE range the format can store (0..7 for formats 0-5, 0..15 for 6-10),
+    the other bits of that byte random, coordinates spread over negative and positive values"""
+    rec = rand_points(rng, header, n, pattern=rng.choice(["random", "small"]))
+    if n == 0:
+        return rec
+    r = return_range(header.point_format.id)
+    rn = (np.arange(n) + start) % r
+    if rng.random() < 0.3:
+        rn = np.array([rng.choice([0, 5, 6, 7, r - 1]) for _ in range(n)])
+    bf = rec.array["bit_fields"].astype(np.uint8)
+    rec.array["bit_fields"] = ((bf & (0xF0 if r == 16 else 0xF8)) | rn.astype(np.uint8)).astype(np.uint8)
+    return rec
+
+
+def describe_header(h):
+    return {"version": str(h.version), "format": h.point_format.id, "vlrs": len(h.vlrs), "extra_dims": len(list(h.point_format.extra_dimensions)),
+            "point_size": h.point_format.size}
+
+
+def chunk_histogram(rec, fmt):
+    """return-number histogram of a record's bytes, as a dict (for descriptions of failing inputs)"""
+    if len(rec) == 0:
+        return {}
+    rn = np.atleast_1d(rec.array["bit_fields"]) & (0x0F if fmt >= 6 else 0x07)
+    u, c = np.unique(rn, return_counts=True)
+    return {int(a): int(b) for a, b in zip(u, c)}
+
+
+# ---------------------------------------------------------------------------------
+# writer sessions (own copy of the generator of harness/sessions.py, extended: how the writer is opened, return-number sweeps)
+# ---------------------------------------------------------------------------------
+WRITER_OPEN_VARIANTS = [
+    ("class", {}), ("class", {"encoding_errors": "ignore"}), ("class", {"do_compress": False}), ("class", {"laz_backend": None}),
+    ("open", {}), ("open", {"encoding_errors": "replace"}), ("open", {"encoding_errors": "ignore", "do_compress": False}),
+    ("open", {"do_compress": False, "laz_backend": ()}), ("open", {"laz_backend": None}), ("open", {"do_compress": None}),
+    ("open", {"closefd": True}), ("class", {"closefd": True}),
+]
+
+
+class KeepStream(io.BytesIO):
+    """a BytesIO whose contents stay readable (getvalue) after it was closed: sessions run with closefd=True"""
+
+    def __init__(self, initial=b""):
+        super().__init__(initial)
+        self._kept = None
+
+    def close(self):
+        if not self.closed:
+            self._kept = super().getvalue()
+        super().close()
+
+    def getvalue(self):
+        return self._kept if self.closed else super().getvalue()
+
+
+def open_writer(dest, header, via="class", kwargs=None, closefd=False):
+    import laspy
+    kw = dict(kwargs or {})
+    closefd = kw.pop("closefd", closefd)
+    if via == "open":
+        return laspy.open(dest, mode="w", header=header, closefd=closefd, **kw)
+    return laspy.LasWriter(dest, header, closefd=closefd, **kw)
+
+
+def foreign_points(rng, header, n):
+    """records whose format differs from header's: another id, or the same id with other extra dimensions"""
+    import laspy
+    if rng.random() < 0.5:
+        pf = laspy.PointFormat(rng.choice([i for i in range(11) if i != header.point_format.id]))
+    else:
+        pf = laspy.PointFormat(header.point_format.id)
+        have = list(header.point_format.extra_dimensions)
+        if have and rng.random() < 0.6:
+            first = have[0]
+            alt = {4: ["f4", "2u2", "i4", "u4"], 2: ["i2", "2u1", "u2"], 1: ["i1", "u1"], 8: ["f8", "2f4", "i8", "u8"]}.get(first.num_bits // 8)
+            if alt:
+                pf.add_extra_dimension(laspy.ExtraBytesParams(first.name + "x", rng.choice(alt)))
+                for d in have[1:]:
+                    pf.add_extra_dimension(laspy.ExtraBytesParams(d.name, d.dtype, scales=d.scales, offsets=d.offsets))
+            else:
+                pf.add_extra_dimension(laspy.ExtraBytesParams("zz", "u1"))
+        else:
+            pf.add_extra_dimension(laspy.ExtraBytesParams("zz", rng.choice(["u4", "f4", "2u2", "i4"])))
+    return laspy.PackedPointRecord.zeros(n, pf)
+
+
+def ws_gen(rng, thorough=False, with_extra=True, version=None, fmt=None, sweep=None, nonascii=None):
+    """dict(header, ops=[('P', rec, same_format) | ('E', vlrlist) | ('C',)], open=(via, kwargs)); always ends with a close"""
+    import laspy
+    h = rand_header(rng, version=version, fmt=fmt)
+    if with_extra and rng.random() < 0.35:
+        add_extra_dims(rng, h)
+    sweep = (rng.random() < 0.4) if sweep is None else sweep
+    ops = []
+    finished = False   # after the EVLRs were written or the writer closed, only write_points / close are exercised (a second
+    #                    write_evlrs is outside the property's histories)
+    for _ in range(rng.randrange(1, 8 if not thorough else 13)):
+        r = rng.random()
+        if finished and 0.76 <= r < 0.9:
+            r = 0.5
+        if r < 0.68:
+            n = rng.choice([0, 0, 1, 2, 5, 17, 40])
+            rec = sweep_points(rng, h, n, start=rng.randrange(16)) if sweep else rand_points(rng, h, n)
+            if n and rng.random() < 0.18:
+                small = rand_points(rng, h, n, pattern="small")
+                for kx in "XYZ":
+                    small.array[kx] = np.array([rng.randrange(-50000, 50000) for _ in range(n)], dtype=np.int32)
+                rec = laspy.ScaleAwarePointRecord(small.array, small.point_format, np.array(h.scales) * rng.choice([1.0, 2.0, 0.5]),
+                                                  np.array(h.offsets) + rng.choice([0.0, 1.0, -2.0]))
+            elif n == 1 and rng.random() < 0.4:
+                rec = rec[0]
+            ops.append(("P", rec, True))
+        elif r < 0.76:
+            ops.append(("P", foreign_points(rng, h, rng.choice([0, 1, 3])), False))
+        elif r < 0.9:
+            evl = laspy.vlrs.vlrlist.VLRList([rand_vlr(rng) for _ in range(rng.choice([0, 1, 2]))])
+            ops.append(("E", evl))
+            finished = finished or (len(evl) > 0 and h.version.minor >= 4)
+        else:
+            ops.append(("C",))
+            finished = True
+    ops.append(("C",))
+    how = rng.choice(WRITER_OPEN_VARIANTS)
+    if nonascii is None:
+        nonascii = rng.random() < 0.12
+    if nonascii:
+        # header strings / VLR descriptions that are not ASCII, as bytes (what laspy hands back when it reads such a file): they can only be
+        # written with a lenient encoding_errors, which must change nothing else
+        make_nonascii(rng, h)
+        how = (how[0], dict(how[1], encoding_errors=rng.choice(["ignore", "replace"])))
+    return {"header": h, "ops": ops, "open": how}
+
+
+def ws_run(sess, stream=None):
+    """executes on laspy; returns (outs, final bytes, per-op (bytes before == bytes after) flags, stream)"""
+    bio = stream if stream is not None else KeepStream()
+    h = sess["header"]
+    via, kw = sess.get("open", ("class", {}))
+    try:
+        w = open_writer(bio, h, via, kw)
+    except Exception as ex:
+        return (["open-err:" + common.exc_kind(ex)], bio.getvalue(), [], bio)
+    outs, unchanged = [], []
+    for op in sess["ops"]:
+        before = bio.getvalue()
+        try:
+            if op[0] == "P":
+                w.write_points(op[1])
+            elif op[0] == "E":
+                w.write_evlrs(op[1])
+            else:
+                w.close()
+            outs.append("ok")
+        except Exception as ex:
+            outs.append("err:" + common.exc_kind(ex))
+        unchanged.append(before == bio.getvalue())
+    return outs, bio.getvalue(), unchanged, bio
+
+
+def ws_rescaled(sess):
+    h = sess["header"]
+    for op in sess["ops"]:
+        if op[0] == "P" and hasattr(op[1], "scales") and len(op[1]) and (np.any(op[1].scales != h.scales) or np.any(op[1].offsets != h.offsets)):
+            return True
+    return False
+
+
+def ws_cmd(sess, ops=None):
+    """the model driver's wrun command for a writer session (a foreign chunk is fed as zero-filled records: only its emptiness matters)"""
+    h = sess["header"]
+    d = header_assoc(h)
+    toks = []
+    for op in (sess["ops"] if ops is None else ops):
+        if op[0] == "P":
+            same = format_key(op[1].point_format) == format_key(h.point_format)
+            data = rec_bytes(op[1]) if same else bytes(len(op[1]) * h.point_format.size)
+            toks.append("P" + ("T" if same else "F") + common.hexb(data))
+        elif op[0] == "E":
+            toks.append("E" + vlrs_tok(op[1]))
+        else:
+            toks.append("C")
+    return f"wrun {assoc_tok(d)} {vlrs_tok(h.vlrs)} {h.point_format.id} {h.point_format.size} " + " ".join(toks)
+
+
+def ws_describe(s):
+    d = describe_header(s["header"])
+    d["open"] = [s.get("open", ("class", {}))[0], {k: repr(v) for k, v in s.get("open", ("class", {}))[1].items()}]
+    d["ops"] = [(o[0] + (str(len(o[1])) + ("" if o[0] != "P" or o[2] else "!fmt")) if o[0] != "C" else "C") for o in s["ops"]]
+    return d
+
+
+def ws_accepted(sess, outs):
+    """bytes of the chunks the writer accepted (not differently scaled ones: None then), and whether all were plain"""
+    pts = b""
+    for op, o in zip(sess["ops"], outs):
+        if op[0] == "P" and o == "ok" and op[2]:
+            pts += rec_bytes(op[1])
+    return pts
+
+
+# ---------------------------------------------------------------------------------
+# ensembles: several writers / appenders / LasData alive at the same time, all built from ONE header object
+# ---------------------------------------------------------------------------------
+def fingerprint(h):
+    """everything a writer / appender given this header must leave alone"""
+    return (repr(sorted(header_assoc(h).items())), [vlr_tuple(v) for v in h.vlrs], format_key(h.point_format))
+
+
+def ens_gen(rng, thorough=False, version=None, fmt=None, kinds=None):
+    """dict(header, header0 (a private deep copy taken now), parts=[{kind, ...}], ops=[(participant, op)]).
+    kinds: 'writer' (LasWriter), 'open-w' (laspy.open mode w), 'appender' (laspy.open mode a on a file written from the header),
+    'lasdata' (LasData(header): assignments of points, written at its close). Ops of one participant: P* then at most one E, a C; writers
+    also get P after E / after C (must be refused). The SAME record object may be handed to several participants."""
+    import copy
+    import laspy
+    from laspy.vlrs.vlrlist import VLRList
+    h = rand_header(rng, version=version, fmt=fmt)
+    if rng.random() < 0.25:
+        add_extra_dims(rng, h)
+    k = rng.choice([2, 2, 3, 4])
+    if kinds is None:
+        kinds = [rng.choice(["writer", "open-w", "writer", "appender", "lasdata"]) for _ in range(k)]
+        if rng.random() < 0.6:
+            kinds[0], kinds[1] = rng.choice(["writer", "open-w"]), rng.choice(["writer", "open-w"])
+    else:
+        kinds = [rng.choice(kinds) for _ in range(k)]
+    parts = []
+    for kd in kinds:
+        p = {"kind": kd}
+        if kd == "appender":
+            p["orig"] = sweep_points(rng, h, rng.choice([0, 1, 4, 9]))
+            p["orig_evl"] = VLRList([rand_vlr(rng, 60) for _ in range(rng.choice([1, 2]))]) if (h.version.minor >= 4 and rng.random() < 0.6) else None
+        parts.append(p)
+    pool = [sweep_points(rng, h, rng.choice([1, 2, 5, 11]), start=rng.randrange(16)) for _ in range(3)]
+    state = ["open"] * k           # open -> evlrs -> closed
+    ops = []
+    for _ in range(rng.randrange(3, 10 if not thorough else 18)):
+        i = rng.randrange(k)
+        kd = kinds[i]
+        r = rng.random()
+        if state[i] == "closed" and kd in ("appender", "lasdata"):
+            continue
+        if r < 0.74:
+            rec = rng.choice(pool) if rng.random() < 0.6 else sweep_points(rng, h, rng.choice([0, 1, 3, 8]), start=rng.randrange(16))
+            ops.append((i, ("P", rec)))
+        elif r < 0.86:
+            if kd in ("writer", "open-w") and state[i] == "open" and h.version.minor >= 4:
+                ops.append((i, ("E", VLRList([rand_vlr(rng, 60) for _ in range(rng.choice([1, 2]))]))))
+                state[i] = "evlrs"
+        else:
+            ops.append((i, ("C",)))
+            state[i] = "closed"
+    return {"header": h, "header0": copy.deepcopy(h), "parts": parts, "ops": ops}
+
+
+def _ens_apply(obj, kind, op, st):
+    """one op on one participant; st = its bookkeeping dict(accepted=[rec bytes], evl, last, closed)"""
+    if kind == "lasdata":
+        if op[0] == "P":
+            if len(op[1].array.shape) == 0:
+                return "skip"
+            obj["las"].points = op[1]
+        elif op[0] == "C":
+            st["accepted"] = [rec_bytes(obj["las"].points)]      # what the object holds when it is written
+            obj["las"].write(obj["bio"])
+            st["closed"] = True
+        return "ok"
+    if op[0] == "P":
+        (obj["w"].append_points if kind == "appender" else obj["w"].write_points)(op[1])
+        if len(op[1]):
+            st["accepted"].append(rec_bytes(op[1]))
+    elif op[0] == "E":
+        obj["w"].write_evlrs(op[1])
+        st["evl"] = op[1]
+    else:
+        obj["w"].close()
+        st["closed"] = True
+    return "ok"
+
+
+def ens_make(kind, h, part):
+    import laspy
+    bio = io.BytesIO()
+    if kind == "writer":
+        return {"bio": bio, "w": laspy.LasWriter(bio, h, closefd=False)}
+    if kind == "open-w":
+        return {"bio": bio, "w": laspy.open(bio, mode="w", header=h, closefd=False)}
+    if kind == "appender":
+        bio = io.BytesIO(write_las(h, part["orig"], part["orig_evl"]))
+        return {"bio": bio, "w": laspy.open(bio, mode="a", closefd=False)}
+    return {"bio": bio, "las": laspy.LasData(header=h)}
+
+
+def ens_run(ens, isolated=False):
+    """runs the ensemble on laspy. isolated=False: every participant is created from the ONE header object, then the ops are
+    interleaved as generated. isolated=True: the reference - each participant alone, from its own deep copy of the original header, its
+    own ops in order. Returns dict(files=[bytes], outs=[[...]], accepted=[bytes], header_touched=bool, error=None|str)"""
+    import copy
+    parts, ops = ens["parts"], ens["ops"]
+    k = len(parts)
+    res = {"files": [None] * k, "outs": [[] for _ in range(k)], "accepted": [b""] * k, "evl": [None] * k, "header_touched": False, "error": None}
+    order = [[(i, op) for i, op in ops]] if not isolated else [[(i, op) for i, op in ops if i == j] for j in range(k)]
+    h = ens["header"] if not isolated else None
+    objs, sts = [None] * k, [None] * k
+    try:
+        before = fingerprint(ens["header"]) if not isolated else None
+        for j, p in enumerate(parts):
+            hj = h if not isolated else copy.deepcopy(ens["header0"])
+            objs[j] = ens_make(p["kind"], hj, p)
+            sts[j] = {"accepted": [rec_bytes(p["orig"])] if p["kind"] == "appender" and len(p["orig"]) else [], "evl": p.get("orig_evl"), "closed": False}
+        for seq in order:
+            for i, op in seq:
+                try:
+                    o = _ens_apply(objs[i], parts[i]["kind"], op, sts[i])
+                except Exception as ex:
+                    o = "err:" + common.exc_kind(ex)
+                res["outs"][i].append(o)
+        for j, p in enumerate(parts):
+            if not sts[j]["closed"]:
+                try:
+                    _ens_apply(objs[j], p["kind"], ("C",), sts[j])
+                except Exception as ex:
+                    res["outs"][j].append("close-err:" + common.exc_kind(ex))
+            res["files"][j] = objs[j]["bio"].getvalue()
+            res["accepted"][j] = b"".join(sts[j]["accepted"])
+            res["evl"][j] = sts[j]["evl"]
+        if not isolated and not any(p["kind"] == "lasdata" for p in parts):
+            res["header_touched"] = fingerprint(ens["header"]) != before
+    except Exception as ex:
+        res["error"] = f"{type(ex).__name__}: {ex}"
+    return res
+
+
+def ens_describe(ens):
+    d = describe_header(ens["header0"])
+    d["participants"] = [p["kind"] + (f"(orig {len(p['orig'])} pts, {len(p['orig_evl'] or [])} evlrs)" if p["kind"] == "appender" else "") for p in ens["parts"]]
+    fmt = ens["header0"].point_format.id
+    d["ops"] = [f"{i}:{op[0]}" + (f"{len(op[1])}@{id(op[1]) % 1000}{chunk_histogram(op[1], fmt)}" if op[0] == "P" else (str(len(op[1])) if op[0] == "E" else "")) for i, op in ens["ops"]]
+    return d
+
+
+def fingerprint_has_bytes(h):
+    """True when a header string or a VLR description of h is a bytes object (non-ASCII text read from a file): such a header can
+    only be written with a lenient encoding_errors"""
+    if isinstance(h.system_identifier, bytes) or isinstance(h.generating_software, bytes):
+        return True
+    return any(isinstance(getattr(v, "description", ""), bytes) for v in h.vlrs)
